@@ -12,6 +12,7 @@ import (
 	"fmt"
 	"math/rand"
 	"net/netip"
+	"strings"
 	"testing"
 	"time"
 
@@ -293,6 +294,88 @@ func c05GenLoop(t *rapid.T) c05Loop {
 	return c
 }
 
+// --- pairs as the configuration accepts them -----------------------------------
+
+// A c05Doc is a configuration with several interfaces, each with its own
+// spelling of min_interval / max_interval. "Any min/max pair the configuration
+// accepts" is taken literally: the pairs come out of config.Parse - the same
+// process parses many documents, as one daemon parses many stanzas - and every
+// accepted pair is put through the real multicastDelay.
+type c05Doc struct {
+	Pairs [][2]string `json:"min_max"` // "" = key omitted
+}
+
+func c05DocProp(k *verifkit.Kit) func(c c05Doc) error {
+	return func(c c05Doc) error {
+		var b strings.Builder
+		for i, p := range c.Pairs {
+			fmt.Fprintf(&b, "[[interfaces]]\nname = \"eth%d\"\nadvertise = true\n", i)
+			if p[0] != "" {
+				fmt.Fprintf(&b, "min_interval = %q\n", p[0])
+			}
+			if p[1] != "" {
+				fmt.Fprintf(&b, "max_interval = %q\n", p[1])
+			}
+		}
+		// the statement of C02 for these two keys, on exact nanoseconds
+		valid := true
+		for _, p := range c.Pairs {
+			max := 600 * time.Second
+			if p[1] != "" {
+				max, _ = time.ParseDuration(p[1])
+			}
+			if max < 4*time.Second || max > 1800*time.Second {
+				valid = false
+				continue
+			}
+			if p[0] != "" && p[0] != "auto" {
+				min, _ := time.ParseDuration(p[0])
+				if min < 3*time.Second || min > (3*max/4).Truncate(time.Second) {
+					valid = false
+				}
+			}
+		}
+		k.Record(c, len(c.Pairs) >= 2, fmt.Sprintf("parsed-pairs:valid=%v", valid))
+		cfg, err := config.Parse(strings.NewReader(b.String()), time.Unix(1, 0))
+		if err != nil {
+			if valid {
+				return verifkit.Violf("C05/valid-pair-rejected", "every pair is within the documented bounds, yet: %v\n%s", err, b.String())
+			}
+			return nil
+		}
+		if !valid {
+			return verifkit.Violf("C05/invalid-pair-accepted", "a pair outside the documented bounds was accepted:\n%s", b.String())
+		}
+		for _, ifi := range cfg.Interfaces {
+			for _, i := range c05Indices {
+				for _, draw := range []int64{0, 1, int64(ifi.MaxInterval-ifi.MinInterval) - 1, 1 << 40} {
+					var d time.Duration
+					if perr := verifkit.Guard(func() error {
+						d = multicastDelay(rand.New(&scriptedSource{v: draw}), i, ifi.MinInterval, ifi.MaxInterval)
+						return nil
+					}); perr != nil {
+						return verifkit.Violf("C05/choosing-the-wait-fails", "%s: accepted min=%v max=%v, index %d: %v", ifi.Name, ifi.MinInterval, ifi.MaxInterval, i, perr)
+					}
+					if err := c05Bounds(ifi.MinInterval, ifi.MaxInterval, i, d); err != nil {
+						return err
+					}
+				}
+			}
+		}
+		return nil
+	}
+}
+
+func c05GenDoc(t *rapid.T) c05Doc {
+	mins := []string{"", "auto", "3s", "3000ms", "5s", "10s", "47s", "0.75m", "450s", "7m30s", "1350s", "2.9s", "1351s"}
+	maxs := []string{"", "4s", "8.9s", "9s", "20s", "63s", "1m3s", "600s", "10m", "1800s", "30m", "3.9s", "1801s"}
+	var c c05Doc
+	for i, n := 0, rapid.IntRange(1, 4).Draw(t, "nifaces"); i < n; i++ {
+		c.Pairs = append(c.Pairs, [2]string{rapid.SampledFrom(mins).Draw(t, "min"), rapid.SampledFrom(maxs).Draw(t, "max")})
+	}
+	return c
+}
+
 func TestVerif_C05(t *testing.T) {
 	k := verifkit.Start(t, "C05")
 	loopProp := c05LoopProp(t, k)
@@ -303,6 +386,9 @@ func TestVerif_C05(t *testing.T) {
 	k.Regress(t, func(sub string, raw json.RawMessage) error {
 		if len(sub) >= 4 && sub[:4] == "loop" {
 			return verifkit.Decode(raw, loopProp)
+		}
+		if strings.HasPrefix(sub, "parsed-pairs") {
+			return verifkit.Decode(raw, c05DocProp(k))
 		}
 		return verifkit.Decode(raw, fnProp)
 	})
@@ -316,4 +402,5 @@ func TestVerif_C05(t *testing.T) {
 	c05Grid(k, t, stride)
 	verifkit.Rapid(k, t, "function-fractional-pairs", k.N(20000, 2000000), c05GenFn, fnProp)
 	verifkit.Rapid(k, t, "loop-on-virtual-time", k.N(300, 20000), c05GenLoop, loopProp)
+	verifkit.Rapid(k, t, "parsed-pairs-in-one-process", k.N(20000, 1000000), c05GenDoc, c05DocProp(k))
 }
